@@ -580,7 +580,10 @@ impl Template {
                 }
                 (Width, FirstStyle | Literal) if !buf.is_empty() => {
                     if let Some(TemplatePart::Placeholder { width, .. }) = parts.last_mut() {
-                        *width = Some(buf.parse().unwrap());
+                        *width = match buf.parse() {
+                            Ok(width) => Some(width),
+                            Err(_) => return Err(TemplateError { next: c, state }),
+                        };
                         buf.clear();
                     }
                 }
